@@ -1,36 +1,122 @@
-(* End-to-end argument for the composite model on the fragment {sleep, sleep_until, log}:
-   the invariant that ties tasks, waker table, the two drivers and the event set together. *)
-From Coq Require Import List NArith Bool Lia Sorting.Sorted Permutation ZifyBool.
+(* End-to-end argument for the composite model on the fragment of coq/Timer/Frag.v:
+   the invariant that ties tasks, waker table, the two drivers, the channels and the event set together. *)
+From Coq Require Import List Arith NArith Bool Lia Sorting.Sorted Permutation ZifyBool.
 From DesVerif Require Import CQueue.Model CQueue.Spec CQueue.SpecProps Timer.Driver Timer.QueueLemmas Timer.Inv
   Timer.Futures Timer.Model Timer.EvSet Timer.Frag.
 Import ListNotations.
 Open Scope N_scope.
 
-(* the log the property demands of the task *)
-Definition expected (tk0 : task) : list N := exp_run (t_start tk0) None (t_steps tk0).
+(* ---- sorting the instants at which messages are sent ---- *)
+Fixpoint insert (x : N) (l : list N) : list N :=
+  match l with [] => [x] | y :: r => if x <=? y then x :: l else y :: insert x r end.
 
-(* a task as the decoder produces it, restricted to the fragment; all its deadlines are finite
-   (below SimTime::MAX = TMAX, i.e. 2^62 - 1 ns: a Sleep with deadline SimTime::MAX never elapses) *)
+Fixpoint isort (l : list N) : list N := match l with [] => [] | x :: r => insert x (isort r) end.
+
+Lemma insert_perm x l : Permutation (x :: l) (insert x l).
+Proof.
+  induction l as [|y r IH]; cbn [insert]; [apply Permutation_refl|]. destruct (x <=? y); [apply Permutation_refl|].
+  eapply Permutation_trans; [apply perm_swap|]. apply perm_skip. exact IH.
+Qed.
+
+Lemma isort_perm l : Permutation l (isort l).
+Proof. induction l as [|x r IH]; cbn [isort]; [constructor|]. eapply Permutation_trans; [apply perm_skip; exact IH|apply insert_perm]. Qed.
+
+Definition sortedN (l : list N) : Prop := StronglySorted N.le l.
+
+Lemma insert_sorted x l : sortedN l -> sortedN (insert x l).
+Proof.
+  induction l as [|y r IH]; intros H; cbn [insert]; [repeat constructor|]. inversion H as [|? ? Hr Hy]; subst.
+  destruct (x <=? y) eqn:E.
+  - constructor; [exact H|]. constructor; [lia|]. eapply Forall_impl; [|exact Hy]. cbn beta. intros z Hz. lia.
+  - constructor; [exact (IH Hr)|]. apply (Permutation_Forall (insert_perm x r)). constructor; [lia|exact Hy].
+Qed.
+
+Lemma isort_sorted l : sortedN (isort l).
+Proof. induction l as [|x r IH]; cbn [isort]; [constructor|apply insert_sorted; exact IH]. Qed.
+
+Lemma sorted_perm_eq l : forall l', sortedN l -> sortedN l' -> Permutation l l' -> l = l'.
+Proof.
+  induction l as [|x r IH]; intros l' H H' P.
+  - apply Permutation_nil in P. symmetry; exact P.
+  - destruct l' as [|y r']; [apply Permutation_sym, Permutation_nil in P; discriminate|].
+    inversion H as [|? ? Hr Hx]; subst. inversion H' as [|? ? Hr' Hy]; subst.
+    assert (x = y).
+    { assert (I1 : In x (y :: r')) by (eapply Permutation_in; [exact P|left; reflexivity]).
+      assert (I2 : In y (x :: r)) by (eapply Permutation_in; [apply Permutation_sym; exact P|left; reflexivity]).
+      rewrite Forall_forall in Hx, Hy. destruct I1 as [->|I1]; [reflexivity|]. destruct I2 as [->|I2]; [reflexivity|].
+      pose proof (Hy x I1). pose proof (Hx y I2). lia. }
+    subst y. f_equal. apply IH; [exact Hr|exact Hr'|]. eapply Permutation_cons_inv; exact P.
+Qed.
+
+Lemma isort_perm_eq l l' : Permutation l l' -> isort l = isort l'.
+Proof.
+  intros P. apply sorted_perm_eq; [apply isort_sorted|apply isort_sorted|].
+  eapply Permutation_trans; [apply Permutation_sym, isort_perm|]. eapply Permutation_trans; [exact P|apply isort_perm].
+Qed.
+
+(* the instants of a prefix that are all [t], no later than anything else, come first *)
+Lemma isort_min_prefix t pre l : Forall (fun a => a = t) pre -> Forall (fun a => t <= a) l -> isort (pre ++ l) = pre ++ isort l.
+Proof.
+  intros Hp Hl. induction Hp as [|x pre Hx Hp IH]; [reflexivity|]. subst x. cbn [app isort]. rewrite IH.
+  assert (Hall : Forall (fun a => t <= a) (pre ++ isort l)).
+  { apply Forall_app. split; [|apply (Permutation_Forall (isort_perm l)); exact Hl].
+    eapply Forall_impl; [|exact Hp]. cbn beta. intros a ->. lia. }
+  destruct (pre ++ isort l) as [|y r]; [reflexivity|]. cbn [insert]. inversion Hall; subst. replace (t <=? y) with true by lia. reflexivity.
+Qed.
+
+Lemma isort_forall (P : N -> Prop) l : Forall P l -> Forall P (isort l).
+Proof. intros H. exact (Permutation_Forall (isort_perm l) H). Qed.
+
+(* ---- what is fixed by the scripts ---- *)
+Definition is_recv (st : step) : bool := match st with STimeoutRecv _ _ => true | _ => false end.
+
+(* a task is a receiver iff its script awaits a receive *)
+Definition rcv_of (tk0 : task) : bool := existsb is_recv (t_steps tk0).
+
+Definition on_chan (c : N) (l : list (N * N)) : list N := map snd (filter (fun p => fst p =? c) l).
+
+(* the instants at which messages are sent into channel c of module m, in order *)
+Definition arrivals (ts0 : list task) (m c : N) : list N :=
+  isort (flat_map (fun tk0 => if t_mod tk0 =? m then on_chan c (exp_sends (t_start tk0) None (t_steps tk0)) else []) ts0).
+
+(* the log the property demands of the task; [A0 m]: the arrivals in the channels of module m *)
+Definition expected (A0 : N -> arrs) (tk0 : task) : list N := exp_run (t_start tk0) None (A0 (t_mod tk0)) (t_steps tk0).
+
+(* a task as the decoder produces it, restricted to the fragment without channels; all its deadlines
+   are finite (below SimTime::MAX = TMAX, i.e. 2^62 - 1 ns: a Sleep with deadline SimTime::MAX never elapses) *)
 Definition init_ok (tk0 : task) : Prop :=
   Forall frag_step (t_steps tk0) /\ t_cur tk0 = None /\ t_iv tk0 = None /\ t_log tk0 = [] /\
-  t_fin tk0 = false /\ t_mod tk0 < 2 /\ Forall (fun x => x < TMAX) (expected tk0).
+  t_fin tk0 = false /\ t_mod tk0 < 2 /\ Forall (fun x => x < TMAX) (expected (fun _ => noarr) tk0).
+
+(* ... with channels: no receive of the task is a tie (recv_ok) *)
+Definition init_ok2 (A0 : N -> arrs) (tk0 : task) : Prop :=
+  Forall (frag_step2 (rcv_of tk0)) (t_steps tk0) /\ t_cur tk0 = None /\ t_iv tk0 = None /\ t_log tk0 = [] /\
+  t_fin tk0 = false /\ t_mod tk0 < 2 /\ Forall (fun x => x < TMAX) (expected A0 tk0) /\
+  recv_ok (t_start tk0) None (A0 (t_mod tk0)) (t_steps tk0).
 
 Definition unspawned (tk : task) : Prop := t_cur tk = None /\ t_fin tk = false.
 
 (* the Sleeps a task holds (all registered while it is blocked) *)
 Definition held (tk : task) : list sleep := held_sleeps (t_cur tk) (t_iv tk).
 
-(* the three states of a task, against the task as it was scripted *)
-Inductive tstate (tk0 tk : task) : Prop :=
-| TUn : tk = tk0 -> tstate tk0 tk
+(* the three states of a task, against the task as it was scripted; [A m]: the arrivals the
+   receiver of module m still expects *)
+Inductive tstate (A0 A : N -> arrs) (tk0 tk : task) : Prop :=
+| TUn : tk = tk0 ->
+    expected A0 tk0 = exp_run (t_start tk0) None (A (t_mod tk0)) (t_steps tk0) ->
+    recv_ok (t_start tk0) None (A (t_mod tk0)) (t_steps tk0) -> tstate A0 A tk0 tk
 | TBl a st rest :
-    t_mod tk = t_mod tk0 -> t_start tk = t_start tk0 -> t_steps tk = st :: rest -> Forall frag_step rest ->
+    t_mod tk = t_mod tk0 -> t_start tk = t_start tk0 -> t_steps tk = st :: rest -> Forall (frag_step2 (rcv_of tk0)) rest ->
     t_cur tk = Some a -> t_fin tk = false -> aw_kind a (t_iv tk) ->
     Forall (fun s => handle s = Some (deadline s)) (aw_held a (t_iv tk)) -> NoDup (map sid (aw_held a (t_iv tk))) ->
-    expected tk0 = t_log tk ++ aw_rec a (t_iv tk) ++ exp_run (aw_end a (t_iv tk)) (iv_abs (iv_after a (t_iv tk))) rest -> tstate tk0 tk
+    expected A0 tk0 = t_log tk ++ aw_rec a (t_iv tk) (A (t_mod tk0)) ++
+                      exp_run (aw_end a (t_iv tk) (A (t_mod tk0))) (iv_abs (iv_after a (t_iv tk))) (aw_arr a (A (t_mod tk0))) rest ->
+    aw_ok a (A (t_mod tk0)) ->
+    recv_ok (aw_end a (t_iv tk) (A (t_mod tk0))) (iv_abs (iv_after a (t_iv tk))) (aw_arr a (A (t_mod tk0))) rest ->
+    (forall ch, waits_on (Some a) = Some ch -> rcv_of tk0 = true) -> tstate A0 A tk0 tk
 | TDn :
     t_mod tk = t_mod tk0 -> t_start tk = t_start tk0 -> t_steps tk = [] -> t_cur tk = None -> t_iv tk = None ->
-    t_fin tk = true -> t_log tk = expected tk0 -> tstate tk0 tk.
+    t_fin tk = true -> t_log tk = expected A0 tk0 -> tstate A0 A tk0 tk.
 
 (* payload of the message that makes its module spawn task k *)
 Definition msg_of (k : nat) : N := 2 + N.of_nat k.
@@ -50,9 +136,12 @@ Record Tie (ts : list task) (t : N) (q : list nat) (m : N) (dr : driver) : Prop 
    not held, outside of tick().await) *)
 Definition owned (tk : task) : list sleep := held tk ++ match t_iv tk with Some i => [iv_delay i] | None => [] end.
 
-Record Base (ts0 ts : list task) (own : wakers) (nid : N) : Prop := {
-  b_states : Forall2 tstate ts0 ts;
-  b_init : Forall init_ok ts0;
+Record Base (A0 A : N -> arrs) (ts0 ts : list task) (own : wakers) (nid : N) : Prop := {
+  b_states : Forall2 (tstate A0 A) ts0 ts;
+  b_init : Forall (init_ok2 A0) ts0;
+  (* at most one task of a module receives *)
+  b_one : forall k k' tk0 tk0', nth_error ts0 k = Some tk0 -> nth_error ts0 k' = Some tk0' ->
+          rcv_of tk0 = true -> rcv_of tk0' = true -> t_mod tk0 = t_mod tk0' -> k = k';
   b_ids : forall k tk s, nth_error ts k = Some tk -> In s (held tk) ->
           sid s < nid /\ waker_of own (sid s) = Some k;
   b_own : forall k tk s, nth_error ts k = Some tk -> In s (owned tk) -> sid s < nid;
@@ -70,29 +159,54 @@ Record Msgs (ts : list task) (l : list ev) (later : nat -> Prop) : Prop := {
   m_all : forall k tk, nth_error ts k = Some tk -> unspawned tk -> later k \/ exists e, In e l /\ epay e = msg_of k;
   m_later : forall k, later k -> exists tk, nth_error ts k = Some tk /\ unspawned tk }.
 
-(* In this fragment a timer that is registered when an event ends is never cancelled (a Sleep
-   that is reset or dropped is so within the poll that registered it): the slot next_wakeup
-   was scheduled for still holds its timer. *)
-Definition NwLive (dr : driver) : Prop := forall w, next_wakeup dr = Some w -> ents_at w (pending dr) <> [].
-Definition Extra (l : N) (dr : driver) : Prop := Snap l dr /\ NwLive dr.
+(* A message that is received cancels the delay of its timeout, possibly the timer next_wakeup
+   was scheduled for: that wake-up is stale then -- it fires, finds nothing, and the next one is
+   scheduled.  [stale]: 1 iff next_wakeup points at a slot without a timer *)
+Definition stale (dr : driver) : nat :=
+  match next_wakeup dr with
+  | Some x => match ents_at x (pending dr) with [] => 1%nat | _ => 0%nat end
+  | None => 0%nat
+  end.
 
-(* at an event boundary; l0, l1: the instants of the last event of module 0 / 1 *)
-Record WInv (ts0 : list task) (later : nat -> Prop) (w : world) : Prop := {
+(* ---- the channels ---- *)
+(* the messages a task will still send, from its state *)
+Definition fut_sends (tk : task) : list (N * N) :=
+  match t_cur tk with
+  | None => if t_fin tk then [] else exp_sends (t_start tk) None (t_steps tk)
+  | Some a => exp_sends (aw_end a (t_iv tk) noarr) (iv_abs (iv_after a (t_iv tk))) (tl (t_steps tk))
+  end.
+
+Definition fsends (m c : N) (ts : list task) : list N :=
+  flat_map (fun tk => if t_mod tk =? m then on_chan c (fut_sends tk) else []) ts.
+
+Definition chan_inst (m c : N) (mail : mailbox) : list N := map deadline (chan m c mail).
+
+(* the arrivals still expected in channel c of module m at instant t: the messages that are in
+   the channel (sent no later than t), then the ones that will be sent (no earlier than t) *)
+Definition Arr (A : N -> arrs) (t : N) (ts : list task) (mail : mailbox) : Prop :=
+  forall m c, A m c = chan_inst m c mail ++ isort (fsends m c ts) /\
+              Forall (fun a => a <= t) (chan_inst m c mail) /\ Forall (fun a => t <= a) (fsends m c ts).
+
+(* at an event boundary *)
+Record WInv (A0 A : N -> arrs) (ts0 : list task) (later : nat -> Prop) (w : world) : Prop := {
   wi_si : SI (w_fes w);
   wi_tcur : s_tcur (w_fes w) = w_now w;
-  wi_mail : w_mail w = [];
-  wi_base : Base ts0 (w_tasks w) (w_owner w) (w_nid w);
+  wi_inert : inert (w_mail w);
+  wi_arr : Arr A (w_now w) (w_tasks w) (w_mail w);
+  (* no receiver is blocked while its channel holds a message *)
+  wi_norecv : forall k tk ch, nth_error (w_tasks w) k = Some tk -> waits_on (t_cur tk) = Some ch -> chan (t_mod tk) ch (w_mail w) = [];
+  wi_base : Base A0 A ts0 (w_tasks w) (w_owner w) (w_nid w);
   wi_drv : forall m, m < 2 -> exists l, l <= w_now w /\ Inv l (drv_of w m) /\
            Permutation (wakes m (spend (w_fes w))) (scheduled (drv_of w m)) /\
-           Tie (w_tasks w) l [] m (drv_of w m) /\ Extra l (drv_of w m);
+           Tie (w_tasks w) l [] m (drv_of w m) /\ Snap l (drv_of w m);
   wi_msgs : Msgs (w_tasks w) (spend (w_fes w)) later }.
 
 (* ---- small facts ---- *)
-Lemma tstate_cases tk0 tk : tstate tk0 tk -> init_ok tk0 ->
+Lemma tstate_cases A0 A tk0 tk : tstate A0 A tk0 tk -> init_ok2 A0 tk0 ->
   t_mod tk = t_mod tk0 /\ t_start tk = t_start tk0 /\
   (t_cur tk = None \/ exists a, t_cur tk = Some a /\ aw_kind a (t_iv tk)).
 Proof.
-  intros [->|a st rest H1 H2 H3 H4 H5 H7 H8 H9 H10 H11|H1 H2 H3 H4 H5 H6 H7] (I1 & I2 & I3 & I4 & I5 & I6 & I7).
+  intros [-> _ _|a st rest H1 H2 H3 H4 H5 H7 H8 H9 H10 H11 _ _ _|H1 H2 H3 H4 H5 H6 H7] (I1 & I2 & I3 & I4 & I5 & I6 & I7).
   - repeat split; try assumption; try reflexivity. left; exact I2.
   - repeat split; try assumption. right; exists a; split; assumption.
   - repeat split; try assumption. left; exact H4.
@@ -114,6 +228,26 @@ Proof.
   - constructor; [exact Hxy|exact (IH k Hk Hr)].
 Qed.
 
+Lemma Forall2_nth_impl {A B} (R Q : A -> B -> Prop) l l' : Forall2 R l l' ->
+  (forall k a b, nth_error l k = Some a -> nth_error l' k = Some b -> R a b -> Q a b) -> Forall2 Q l l'.
+Proof.
+  intros H. induction H as [|x y l l' Hxy H IH]; intros Himp; [constructor|].
+  constructor; [exact (Himp 0%nat x y eq_refl eq_refl Hxy)|].
+  apply IH. intros k a b Ha Hb Hr. exact (Himp (S k) a b Ha Hb Hr).
+Qed.
+
+Lemma Forall2_set_nth_impl {A B} (R Q : A -> B -> Prop) l l' k a b : Forall2 R l l' -> nth_error l k = Some a -> Q a b ->
+  (forall k' a' b', k' <> k -> nth_error l k' = Some a' -> nth_error l' k' = Some b' -> R a' b' -> Q a' b') ->
+  Forall2 Q l (set_nth k b l').
+Proof.
+  intros H. revert k. induction H as [|x y l l' Hxy H IH]; intros k Hk Hq Himp; [destruct k; discriminate|].
+  destruct k as [|k]; cbn [nth_error set_nth] in *.
+  - injection Hk as ->. constructor; [exact Hq|].
+    apply (Forall2_nth_impl R Q l l' H). intros k' a' b' Ha Hb Hr. apply (Himp (S k') a' b'); [lia|exact Ha|exact Hb|exact Hr].
+  - constructor; [apply (Himp 0%nat x y); [lia|reflexivity|reflexivity|exact Hxy]|].
+    apply (IH k Hk Hq). intros k' a' b' Hne Ha Hb Hr. apply (Himp (S k') a' b'); [lia|exact Ha|exact Hb|exact Hr].
+Qed.
+
 Lemma nth_set_nth_same {A} (l : list A) k x y : nth_error l k = Some y -> nth_error (set_nth k x l) k = Some x.
 Proof.
   revert k; induction l as [|a l IH]; intros k H; [destruct k; discriminate|].
@@ -130,9 +264,13 @@ Qed.
 Lemma length_set_nth {A} (l : list A) k x : length (set_nth k x l) = length l.
 Proof. revert k; induction l as [|a l IH]; intros k; [destruct k; reflexivity|]. destruct k; cbn [set_nth length]; [reflexivity|rewrite IH; reflexivity]. Qed.
 
-(* no task of the fragment ever waits on a channel *)
-Lemma aw_kind_no_wait a iv : aw_kind a iv -> waits_on (Some a) = None.
-Proof. destruct a as [s|v dl| | | | | | |]; try contradiction; try reflexivity. destruct v; try contradiction. reflexivity. Qed.
+(* the await states that do not wait on a channel do not depend on the arrivals *)
+Lemma aw_noarr a iv arr arr' : waits_on (Some a) = None ->
+  aw_rec a iv arr = aw_rec a iv arr' /\ aw_end a iv arr = aw_end a iv arr' /\ aw_arr a arr = arr /\ aw_arr a arr' = arr' /\ aw_ok a arr'.
+Proof.
+  destruct a as [s|v dl|biased tie sa sb| | | | |rearm d3 s sx|pre s]; try (cbn [waits_on]; discriminate); try (intros _; repeat split; reflexivity).
+  destruct v; cbn [waits_on]; intros H; try discriminate; repeat split; reflexivity.
+Qed.
 
 Lemma min2 (s1 s2 : sleep) : (exists s, In s [s1; s2] /\ deadline s = N.min (deadline s1) (deadline s2)) /\
   forall s, In s [s1; s2] -> N.min (deadline s1) (deadline s2) <= deadline s.
@@ -143,67 +281,88 @@ Proof.
   - intros s' [<-|[<-|[]]]; lia.
 Qed.
 
-Lemma no_receivers ts0 ts m mail : Forall2 tstate ts0 ts -> Forall init_ok ts0 -> forall i, ready_receivers m mail i ts = [].
-Proof.
-  intros H. induction H as [|x y l l' Hxy H IH]; intros Hi i; [reflexivity|].
-  inversion Hi as [|? ? Hx Hl]; subst. cbn [ready_receivers].
-  destruct (tstate_cases _ _ Hxy Hx) as (_ & _ & [Hc|(a & Hc & Hk)]); rewrite Hc.
-  - cbn [waits_on]. apply IH; exact Hl.
-  - rewrite (aw_kind_no_wait a _ Hk). apply IH; exact Hl.
-Qed.
-
 (* facts about the await states of the fragment *)
 Lemma aw_wake_held a iv : aw_kind a iv ->
   (exists s, In s (aw_held a iv) /\ deadline s = aw_wake a iv) /\ forall s, In s (aw_held a iv) -> aw_wake a iv <= deadline s.
 Proof.
+  assert (H1 : forall s : sleep, (exists s', In s' [s] /\ deadline s' = deadline s) /\ forall s', In s' [s] -> deadline s <= deadline s').
+  { intros s. split; [exists s; split; [left; reflexivity|reflexivity]|intros s' [<-|[]]; lia]. }
   destruct a as [s|v dl|biased tie sa sb| | | | |rearm d3 s sx|pre s]; try contradiction.
-  - intros _. cbn [aw_held held_sleeps aw_wake]. split; [exists s; split; [left; reflexivity|reflexivity]|intros s' [<-|[]]; lia].
-  - destruct v as [s| | |]; try contradiction. intros _. cbn [aw_held held_sleeps aw_wake]. apply min2.
+  - intros _. apply H1.
+  - destruct v as [s| |ch|]; try contradiction; intros _; cbn [aw_held held_sleeps aw_wake]; [apply min2|apply H1].
   - intros _. cbn [aw_held held_sleeps aw_wake]. apply min2.
-  - destruct iv as [i|]; [|intros H; contradiction H; reflexivity]. intros _. cbn [aw_held held_sleeps aw_wake].
-    split; [exists (iv_delay i); split; [left; reflexivity|reflexivity]|intros s' [<-|[]]; lia].
+  - destruct iv as [i|]; [|intros H; contradiction H; reflexivity]. intros _. cbn [aw_held held_sleeps aw_wake]. apply H1.
   - intros _. cbn [aw_held held_sleeps aw_wake]. apply min2.
-  - intros _. cbn [aw_held held_sleeps aw_wake]. split; [exists s; split; [left; reflexivity|reflexivity]|intros s' [<-|[]]; lia].
+  - intros _. apply H1.
 Qed.
 
-Lemma aw_wake_in_rec a iv : aw_kind a iv -> In (aw_wake a iv) (aw_rec a iv).
+Lemma aw_wake_in_rec a iv arr : aw_kind a iv -> waits_on (Some a) = None -> In (aw_wake a iv) (aw_rec a iv arr).
 Proof.
   destruct a as [s|v dl|biased tie sa sb| | | | |rearm d3 s sx|pre s]; try contradiction.
-  - intros _. left; reflexivity.
-  - destruct v as [s| | |]; try contradiction. intros _. left; reflexivity.
-  - intros _. left; reflexivity.
-  - destruct iv as [i|]; [|intros H; contradiction H; reflexivity]. intros _. left; reflexivity.
-  - intros _. cbn [aw_wake aw_rec]. destruct (deadline s <=? deadline sx) eqn:E; left; lia.
-  - intros _. cbn [aw_wake aw_rec]. apply in_or_app. right. left. reflexivity.
+  - intros _ _. left; reflexivity.
+  - destruct v as [s| |ch|]; try contradiction; [intros _ _; left; reflexivity|intros _ H; discriminate].
+  - intros _ _. left; reflexivity.
+  - destruct iv as [i|]; [|intros H; contradiction H; reflexivity]. intros _ _. left; reflexivity.
+  - intros _ _. cbn [aw_wake aw_rec]. destruct (deadline s <=? deadline sx) eqn:E; left; lia.
+  - intros _ _. cbn [aw_wake aw_rec]. apply in_or_app. right. left. reflexivity.
 Qed.
 
-(* the instant a blocked task will complete its await is finite *)
-Lemma blocked_fin tk0 tk a : tstate tk0 tk -> init_ok tk0 -> t_cur tk = Some a -> aw_wake a (t_iv tk) < TMAX.
+(* the instant of the first timer wake-up of a blocked task is finite *)
+Lemma blocked_fin A0 A tk0 tk a : tstate A0 A tk0 tk -> init_ok2 A0 tk0 -> t_cur tk = Some a -> aw_wake a (t_iv tk) < TMAX.
 Proof.
-  intros Hst (_ & I2 & _ & _ & _ & _ & I7) Hc.
-  destruct Hst as [->|a' st rest _ _ _ _ H5 _ Hk _ _ H9|_ _ _ H4 _ _ _].
+  intros Hst (_ & I2 & _ & _ & _ & _ & I7 & _) Hc.
+  destruct Hst as [-> _ _|a' st rest _ _ _ _ H5 _ Hk _ _ H9 Hao _ _|_ _ _ H4 _ _ _].
   - rewrite I2 in Hc. discriminate.
-  - rewrite H5 in Hc. injection Hc as ->. rewrite Forall_forall in I7. apply I7. rewrite H9.
-    apply in_or_app. right. apply in_or_app. left. exact (aw_wake_in_rec a _ Hk).
+  - rewrite H5 in Hc. injection Hc as ->. destruct (waits_on (Some a)) as [ch|] eqn:Ew.
+    + destruct a as [s|v dl| | | | | | |]; try discriminate; try contradiction. destruct v; try discriminate. exact (proj1 Hao).
+    + rewrite Forall_forall in I7. apply I7. rewrite H9.
+      apply in_or_app. right. apply in_or_app. left. exact (aw_wake_in_rec a _ _ Hk Ew).
   - rewrite H4 in Hc. discriminate.
 Qed.
 
-Lemma base_blocked_fin ts0 ts own nid k tk a : Base ts0 ts own nid -> nth_error ts k = Some tk ->
+Lemma base_blocked_fin A0 A ts0 ts own nid k tk a : Base A0 A ts0 ts own nid -> nth_error ts k = Some tk ->
   t_cur tk = Some a -> aw_wake a (t_iv tk) < TMAX.
 Proof.
-  intros B Hk Hc. destruct (Forall2_nth _ _ _ _ _ (b_states _ _ _ _ B) Hk) as (tk0 & Hk0 & Hst).
-  apply (blocked_fin tk0 tk a Hst); [|exact Hc]. pose proof (b_init _ _ _ _ B) as Ha. rewrite Forall_forall in Ha.
+  intros B Hk Hc. destruct (Forall2_nth _ _ _ _ _ (b_states _ _ _ _ _ _ B) Hk) as (tk0 & Hk0 & Hst).
+  apply (blocked_fin A0 A tk0 tk a Hst); [|exact Hc]. pose proof (b_init _ _ _ _ _ _ B) as Ha. rewrite Forall_forall in Ha.
   apply Ha. eapply nth_error_In; exact Hk0.
 Qed.
 
 (* a task that holds a Sleep is blocked on an await state of the fragment that holds it *)
-Lemma held_blocked tk0 tk s : tstate tk0 tk -> init_ok tk0 -> In s (held tk) ->
+Lemma held_blocked A0 A tk0 tk s : tstate A0 A tk0 tk -> init_ok2 A0 tk0 -> In s (held tk) ->
   exists a, t_cur tk = Some a /\ aw_kind a (t_iv tk) /\ In s (aw_held a (t_iv tk)) /\ handle s = Some (deadline s) /\
             NoDup (map sid (aw_held a (t_iv tk))) /\ held tk = aw_held a (t_iv tk).
 Proof.
   intros Hst (_ & I2 & I3 & _) Hin. unfold held in *.
-  destruct Hst as [->|a st rest _ _ _ _ H5 _ Hk Hh Hnd _|_ _ _ H4 _ _ _].
+  destruct Hst as [-> _ _|a st rest _ _ _ _ H5 _ Hk Hh Hnd _ _ _ _|_ _ _ H4 _ _ _].
   - rewrite I2 in Hin. contradiction.
   - rewrite H5 in *. exists a. rewrite Forall_forall in Hh. repeat split; try assumption; try reflexivity. exact (Hh s Hin).
   - rewrite H4 in Hin. contradiction.
+Qed.
+
+(* a task that is not the receiver of its module: its state does not depend on the arrivals *)
+Lemma tstate_noarr A0 A A' tk0 tk : tstate A0 A tk0 tk -> init_ok2 A0 tk0 -> rcv_of tk0 = false -> tstate A0 A' tk0 tk.
+Proof.
+  intros Hst (I1 & _) Hr. rewrite Hr in I1.
+  destruct Hst as [-> He Ho|a st rest H1 H2 H3 H4 H5 H7 H8 H9 H10 H11 H12 H13 H14|H1 H2 H3 H4 H5 H6 H7].
+  - apply TUn; [reflexivity| |apply recv_ok_noarr; exact I1]. rewrite He. apply exp_run_noarr. exact I1.
+  - rewrite Hr in H4.
+    assert (Hw : waits_on (Some a) = None).
+    { destruct (waits_on (Some a)) as [ch|] eqn:E; [|reflexivity]. specialize (H14 ch eq_refl). congruence. }
+    destruct (aw_noarr a (t_iv tk) (A (t_mod tk0)) (A' (t_mod tk0)) Hw) as (E1 & E2 & E3 & E4 & E5).
+    apply (TBl _ _ _ _ a st rest); try assumption.
+    + rewrite Hr. exact H4.
+    + rewrite H11, E1, E2, E3, E4. f_equal. f_equal. apply exp_run_noarr. exact H4.
+    + rewrite E4. apply recv_ok_noarr. exact H4.
+  - apply TDn; assumption.
+Qed.
+
+(* a receiver never sends *)
+Lemma rcv_no_sends A0 A tk0 tk : tstate A0 A tk0 tk -> init_ok2 A0 tk0 -> rcv_of tk0 = true -> fut_sends tk = [].
+Proof.
+  intros Hst (I1 & I2 & _ & _ & I5 & _) Hr. rewrite Hr in I1. unfold fut_sends.
+  destruct Hst as [-> _ _|a st rest H1 H2 H3 H4 H5 H7 H8 H9 H10 H11 H12 H13 H14|H1 H2 H3 H4 H5 H6 H7].
+  - rewrite I2, I5. apply exp_sends_rcv. exact I1.
+  - rewrite H5, H3. cbn [tl]. rewrite Hr in H4. apply exp_sends_rcv. exact H4.
+  - rewrite H4, H6. reflexivity.
 Qed.
